@@ -8,6 +8,7 @@ import MsPack.Oab.Crc32
 import MsPack.Huff
 import MsPack.Spec.CabEncode
 import MsPack.Spec.Lzss
+import MsPack.Spec.Kwaj
 /-
 `prim WHAT ARGS…`: direct calls of the models of static functions.
 -/
@@ -138,6 +139,17 @@ def handle (toks : List String) : HM State Bool := do
     | some m, some ts =>
       emit s!"prim lzssenc {optHex (some (Lzss.encode ts))} {outDigest (Lzss.expand ts (Lzss.initRing m)).out.toList}"
     | _, _ => emit "prim lzssenc bad-args"
+    return true
+  | ["prim", "enckwaj", xor, len, unk1, unk2, extra, dataHex] =>
+    -- driver-only: `Kwaj.encodeKwaj` of a specification; absent optional parts are written `-`:
+    --   prim enckwaj {0|1} {LEN|-} {UNK1|-} {UNK2HEX|-|=} {EXTRAHEX|-|=} DATAHEX    (= is the empty byte string)
+    let optNat (s : String) : Option (Option Nat) := if s = "-" then some none else (parseNat s).map some
+    let optB (s : String) : Option (Option Bytes) :=
+      if s = "-" then some none else if s = "=" then some (some []) else (parseHex s).map some
+    match parseNat xor, optNat len, optNat unk1, optB unk2, optB extra, (if dataHex = "=" then some [] else parseHex dataHex) with
+    | some x, some l, some u1, some u2, some ex, some d =>
+      emit s!"prim enckwaj {toHex (Kwaj.encodeKwaj ⟨x != 0, l, u1, u2, ex, d⟩)}"
+    | _, _, _, _, _, _ => emit "prim enckwaj bad-args"
     return true
   | ["prim", "mdt", _kind, nsyms, nbits, _tsize, lensHex] =>
     -- make_decode_table(nsyms, nbits, length, table): the return value only (0 = table accepted), by the
